@@ -2,6 +2,7 @@ package props
 
 import (
 	"fmt"
+	"math"
 	"runtime/debug"
 	"unicode/utf8"
 
@@ -361,7 +362,38 @@ func boundaries(s string) []int {
 // c10TwoTables: the same filter text parsed for one symbol table and then for another which does not know its symbol (or
 // knows it with another type): the second parse is a verdict about the second table. The texts are parsed for the first
 // table at the very start of a case (and so among the first texts a worker process ever parses).
+// c10PagingBeyondInt64: skip and limit take integers; a plain-digit literal beyond the int64 range is no integer the
+// query could mean - it is refused, not replaced by another number. In a comparison the same text is a number (a
+// float): every int64 lies below 99999999999999999999.
+func c10PagingBeyondInt64(c *core.Ctx) {
+	tbl := memsym.NewTable()
+	tbl.Types["pbn"] = ast.NodeTypeInt64
+	for _, text := range []string{"true skip 9223372036854775808", "true limit 99999999999999999999", "pbn = 1 skip 18446744073709551616 limit 1", "true skip 1 limit 9223372036854775808", "true sort by pbn limit 340282366920938463463374607431768211456"} {
+		_, err := ast.Parse(tbl, text)
+		c.Eval()
+		c.Count("paging_values_beyond_int64", 1)
+		if err == nil {
+			c.Violationf("C10 a skip / limit value beyond the int64 range is accepted (read as another number)", text, "%q parsed without an error", text)
+		}
+	}
+	row := memsym.NewRow(tbl)
+	for _, v := range []int64{0, math.MaxInt64, math.MinInt64, 1 << 62} {
+		row.Vals["pbn"] = v
+		for text, want := range map[string]bool{"pbn < 99999999999999999999": true, "pbn >= 99999999999999999999": false, "pbn > -99999999999999999999": true, "pbn in [99999999999999999999, 5]": false} {
+			q, err := ast.Parse(tbl, text)
+			c.Eval()
+			if err != nil {
+				continue // refusing the literal is fine, reading it as another number is not
+			}
+			if got := q.EvalBool(row); got != want {
+				c.Violationf("C10 an integer literal beyond the int64 range is read as another number", map[string]any{"query": text, "pbn": v}, "%q over pbn=%d evaluates to %v", text, v, got)
+			}
+		}
+	}
+}
+
 func c10TwoTables(c *core.Ctx) {
+	c10PagingBeyondInt64(c)
 	a, b := memsym.NewTable(), memsym.NewTable()
 	a.Types["twa"], a.Types["twn"], a.Types["tws"] = ast.NodeTypeString, ast.NodeTypeInt64, ast.NodeTypeString
 	a.Sets["tws"] = true
